@@ -206,10 +206,11 @@ CHECKS = {
        "drain each application has been notified of exactly what the other side published (C01_pair_two_way_exactly_once); "
        "the same for v5.0 with Receive Maximum and Maximum Packet Size negotiated in both directions, where after the drain both accounts "
        "are back to full and neither side holds an outstanding entry (C01_pair_two_way_v5_exactly_once, Conn/PairBi5.v); "
-       "(1m) MANUAL RESPONSES, one exchange: with auto_pub_response off on both endpoints the library requests nothing itself, "
+       "(1m) MANUAL RESPONSES: with auto_pub_response off on both endpoints the library requests nothing itself, "
        "each acknowledgement the application sends goes through send() to the same code, and QoS 1 / QoS 2 exchanges complete from every "
        "admissible pair of states (C01_pair_qos1_completes_manual, C01_pair_qos2_completes_manual, Conn/PairManual.v), and for v5.0 with the "
        "receiver's Receive Maximum slot held until its application acknowledges (C01_pair_qos{1,2}_completes_manual_v5, Conn/PairManual5.v); "
+       "any SEQUENCE of v3.1.1 exchanges with the two applications in the loop, identifiers reused (C01_pair_sequence_exactly_once_manual, Conn/PairManualSeq.v); "
        "(1v5) v5.0 WITH SEVERAL EXCHANGES IN FLIGHT: the invariant adds the Receive Maximum accounts (sender's count = exchanges in "
        "flight <= the peer's limit; receiver's outstanding set = its handled set), the quota is never exceeded, and after the drain the "
        "vacancy is the full maximum (C01_pair_concurrent_exactly_once_v5); (1b) THE SAME ACROSS TRANSPORT LOSS - persistent sessions, one more action 'the transport "
